@@ -433,6 +433,11 @@ def run(rep):
         for r in ex.results:
             if r["status"] == "unknown":
                 rep.inconclusive.append("kernel[%s]: %s" % (role, r.get("why")))
+    # "an event is reported once it spans ceil(min_dur/w) windows, never spans more than floor(max_dur/w) ...": with the
+    # counts proven above this is the tokenizer's completeness (C04); the same differential is run here on the counts
+    from . import c04
+    N = 5 if rep.tier == "quick" else 8
+    tok.run_bmc(rep, core, "burst-e2e", N, (0, 4) if rep.tier == "quick" else tok.MODES, (False,), c04.oblig, c04.replay_fn)
     for inp in ("bytes", "reader"):
         ex = explore(wiring_harness(L, inp))
         rep.add_exploration("wiring[%s]" % inp, ex)
